@@ -485,6 +485,17 @@ def run(ctx):
     # ---- invariance residuals inside the families
     inv = invariance(V, cases, results, lines)
     far = far_probe(exe, Rng(seed).fork("far"))
+    # far from the origin the coordinates themselves still carry the shape to (offset/size)*eps, but the un-centred cubic
+    # determinants of compute_volume / check_face_normal_orientation cancel: recorded finding, identified by this input family
+    for rec in far:
+        ratio = rec["offset_over_size"]
+        bad = rec.get("status") is not None or rec["relative_volume_error"] > 1e3 * 2.3e-16 * ratio or not rec["normals_outward"]
+        if bad:
+            V.fail_input("unit icosphere (80 faces, random input windings) translated by %g cell sizes along (1,1,1): %s" % (
+                ratio, ("initialisation answers %s" % rec["status"]) if rec.get("status") is not None else
+                "reported volume off by a factor %.3g relative (coordinates carry the shape to %.1e), normals %s" % (
+                    rec["relative_volume_error"], 2.3e-16 * ratio, "outward" if rec["normals_outward"] else "INWARD after initialisation")),
+                {"probe": "far_offset", "offset_over_size": ratio}, key=KEY_FAR)
     rcode, nviol = V.finish()
     cov = {
         "obligations": proof["obligations"], "discharged": proof["discharged"],
@@ -612,8 +623,11 @@ def invariance(V, cases, results, lines):
     return {"pairs_compared": compared, "axis_pairs_compared": axis_compared, "worst_residual_over_tolerance": worst, "failures": nfail}
 
 
+KEY_FAR = "C12:far-origin-cancellation"
+
+
 def far_probe(exe, r):
-    """informational: what happens beyond the covered offset range (never a verdict)"""
+    """beyond the offset range of the generated families (the verdict on it is the recorded finding KEY_FAR)"""
     v, f = U.icosphere(1)
     out = []
     lines = []
